@@ -44,9 +44,10 @@ def _matches(got, exp):
 
 
 def check_vector(P, vec, variants=False, channels=False):
+    P.remember({"vector": vec})
     L = lib()
     P.evaluations += 1
-    ok, o = obs.call(L.CVSS2, vec)
+    ok, o = obs.call(obs.construct, L.CVSS2, vec)
     if not ok:
         P.violation("construct", "C03:exception:" + obs.exc_name(o), {"vector": vec}, error=repr(o))
         return None
